@@ -28,6 +28,7 @@ EXPLANATION = (
     "look-ahead and of its consumer agree. Does not decide that the precedence-climbing recursion realises those "
     "tables for every token adjacency, nor the word-form/unicode regexes.")
 EXPLANATION += ' Also decided (rules added after the second round of seeded changes): token conservation in the uncertainty tokenizer (every named token reaches the output, an optionally present token such as the unary minus is yielded unchanged) and look-ahead offset agreement (the exponent is searched right behind the last token the branch guard inspected, with the same optional-minus shift).'
+EXPLANATION += ' Also decided (round 8): on the syntax tree of the regular expression (re._parser, nothing is matched), the _subs_re_list entry that rewrites juxtaposition by blanks to `*` consumes a run of whitespace.'
 
 HARD_SINKS = {"eval", "exec", "compile", "__import__", "import_module", "open", "system", "popen", "Popen", "run", "call", "check_output",
               "loads", "load", "execfile", "spawn", "CDLL"}
